@@ -4,17 +4,18 @@
 # `tools/mutant_run.sh --clean` removes them. Never touches /repo's working tree.
 set -u
 VERIF="$(cd "$(dirname "$0")/.." && pwd)"
-WT=/tmp/verif-mw/wt
-SH=/tmp/verif-mw/shadow
-OUT=/tmp/verif-mw/out
+MW="${VERIF_MW:-/tmp/verif-mw}"
+WT=$MW/wt
+SH=$MW/shadow
+OUT=$MW/out
 if [ "${1:-}" = "--clean" ]; then
   git -C /repo worktree remove --force "$WT" 2>/dev/null
-  rm -rf /tmp/verif-mw
+  rm -rf "$MW"
   git -C /repo worktree prune
   exit 0
 fi
 PATCH="$1"; shift
-mkdir -p /tmp/verif-mw "$OUT"
+mkdir -p "$MW" "$OUT"
 if [ ! -d "$WT" ]; then git -C /repo worktree add -q --detach "$WT" HEAD || exit 2; fi
 git -C "$WT" checkout -q -- . && git -C "$WT" clean -qfd && git -C "$WT" checkout -q --detach "$(git -C /repo rev-parse HEAD)" || { echo "WORKTREE-RESET-FAILED"; exit 2; }
 if [ "$PATCH" != "none" ]; then
